@@ -115,11 +115,21 @@ type Timer struct {
 	c     chan Time
 }
 
+// late adds the injected lateness to a timer's duration without overflowing (a duration near the top
+// of the range must stay there, not wrap to "already due").
+func late(d Duration) Duration {
+	l := sim.Lateness()
+	if l > 0 && d > Duration(1<<63-1)-l {
+		return Duration(1<<63 - 1)
+	}
+	return d + l
+}
+
 func NewTimer(d Duration) *Timer {
 	sim.Pre("time.NewTimer")
 	if sim.AsyncTimerChan() {
 		c := make(chan Time, 1)
-		rt := stdtime.AfterFunc(d+sim.Lateness(), func() {
+		rt := stdtime.AfterFunc(late(d), func() {
 			select {
 			case c <- stdtime.Now():
 			default:
@@ -128,7 +138,7 @@ func NewTimer(d Duration) *Timer {
 		sim.TrackTimer(rt)
 		return &Timer{C: c, c: c, t: rt, async: true}
 	}
-	rt := stdtime.NewTimer(d + sim.Lateness())
+	rt := stdtime.NewTimer(late(d))
 	sim.TrackTimer(rt)
 	return &Timer{C: rt.C, t: rt}
 }
@@ -137,7 +147,7 @@ func AfterFunc(d Duration, f func()) *Timer {
 	sim.Pre("time.AfterFunc")
 	key := sim.TimerKey()
 	n := 0
-	rt := stdtime.AfterFunc(d+sim.Lateness(), func() {
+	rt := stdtime.AfterFunc(late(d), func() {
 		n++
 		sim.RunTimerTask("time.AfterFunc", key+n%1000, f)
 	})
@@ -157,7 +167,7 @@ func (t *Timer) Stop() bool {
 
 func (t *Timer) Reset(d Duration) bool {
 	sim.Pre("Timer.Reset")
-	r := t.t.Reset(d + sim.Lateness())
+	r := t.t.Reset(late(d))
 	sim.After("Timer.Reset")
 	return r
 }
